@@ -1,6 +1,8 @@
-"""Per-property configuration of bin/check: which Coq property files carry the
-theorems, which correspondence families and oracles tie them to /repo, and the
-case counts of the two tiers (fixed, so a check runs in minutes)."""
+"""Configuration loader of bin/check.  Every property has one file
+bin/checks.d/Cxx.json: which Coq property files carry its theorems, which
+correspondence families and oracles tie them to /repo, and the case counts of
+the two tiers (fixed, so a check runs in minutes)."""
+import glob, json, os
 
 TRUSTED_BASE = [
     "Coq 8.16.1 kernel (coqc from Debian); vm_compute used for reflexive obligations and in-Coq case evaluation; native_compute not used",
@@ -13,13 +15,6 @@ TRUSTED_BASE = [
 
 ALLOWED_AXIOMS = set()
 
-CHECKS = {
-    "C12": dict(
-        property_files=["Properties/C12.v"],
-        families=[dict(name="cmp", quick=30000, thorough=1500000, coq_sample=dict(quick=300, thorough=2000))],
-        oracle=dict(quick=60000, thorough=3000000),
-        rule="family cmp: pairs from the collision-rich value pool (all four numeric types incl. NaN/Inf/-0/2^53/2^63 boundaries, nested documents and arrays, near-copies); sign of bsonkit.Compare vs extracted model compare; non-trivial = the two renderings differ",
-        modelled="bsonkit.Compare, bsonkit.Inspect, Decimal128.BigInt decoding and IEEE-754 decoding are modelled (Model/Num.v, Model/Compare.v); shopspring/decimal and math/big are not modelled, only compared against",
-        assumptions=["values are built from the supported BSON types (Inspect panics on others by documented contract)"],
-    ),
-}
+CHECKS = {}
+for _p in sorted(glob.glob(os.path.join(os.path.dirname(os.path.abspath(__file__)), "checks.d", "C*.json"))):
+    CHECKS[os.path.basename(_p)[:-5]] = json.load(open(_p))
